@@ -156,6 +156,58 @@ fn rand_post_v2(r: &mut Rng, n: usize) -> PostSpec {
     PostSpec { version: 0x0002_0000, idx, strings, cut, tail }
 }
 
+/// which generator features a built table has (for the distribution report)
+fn post_features(t: &[u8], n_font: usize) -> Vec<(&'static str, bool)> {
+    if t.len() < 34 || t[0..4] != [0, 2, 0, 0] {
+        return vec![("not-v2.0", true)];
+    }
+    let num = rd16(t, 32) as usize;
+    if t.len() < 34 + 2 * num {
+        return vec![("unreadable", true)];
+    }
+    let idx: Vec<usize> = (0..num).map(|g| rd16(t, 34 + 2 * g) as usize).collect();
+    let mut strings: Vec<Option<Vec<u8>>> = vec![];
+    let mut p = 34 + 2 * num;
+    let mut truncated = false;
+    while p < t.len() {
+        let l = t[p] as usize;
+        if p + 1 + l > t.len() {
+            truncated = true;
+            break;
+        }
+        let sl = &t[p + 1..p + 1 + l];
+        strings.push(if sl.is_ascii() { Some(sl.to_vec()) } else { None });
+        p += 1 + l;
+    }
+    let used: std::collections::BTreeSet<usize> = idx.iter().filter(|i| **i >= 258).map(|i| i - 258).collect();
+    let oks: Vec<&Vec<u8>> = strings.iter().flatten().collect();
+    let distinct: std::collections::BTreeSet<&Vec<u8>> = oks.iter().copied().collect();
+    let mut shared = false;
+    let mut seen = std::collections::BTreeSet::new();
+    for i in idx.iter().filter(|i| **i >= 258) {
+        if !seen.insert(*i) {
+            shared = true;
+        }
+    }
+    let order: Vec<usize> = idx.iter().filter(|i| **i >= 258).copied().collect();
+    vec![
+        ("numGlyphs<font", num < n_font),
+        ("numGlyphs>font", num > n_font),
+        ("numGlyphs=font", num == n_font),
+        ("same-name-at-two-string-indices", distinct.len() < oks.len()),
+        ("string-equals-standard-name", oks.iter().any(|s| DEFAULT_GLYPH_NAMES.iter().any(|d| d.as_bytes() == s.as_slice()))),
+        ("empty-string", oks.iter().any(|s| s.is_empty())),
+        ("255-byte-string", oks.iter().any(|s| s.len() == 255)),
+        ("non-ascii-string", strings.iter().any(|s| s.is_none())),
+        ("truncated-string-data", truncated),
+        ("unused-string", (0..strings.len()).any(|k| !used.contains(&k))),
+        ("index-beyond-string-list", used.iter().any(|k| *k >= strings.len())),
+        ("index-shared-by-glyphs", shared),
+        ("strings-not-in-glyph-order", order.windows(2).any(|w| w[1] < w[0])),
+        ("only-standard-indices", used.is_empty()),
+    ]
+}
+
 // ---------------------------------------------------------------------------------------------
 // glyph statistics (for the maxp oracle), computed with read-fonts only
 // ---------------------------------------------------------------------------------------------
@@ -658,6 +710,10 @@ fn run_request(s: &mut Session, cx: &Ctx, req: &Req, r: &mut Rng) {
                         }
                     } else {
                         s.count("head:glyf-subset-failed(no loca)");
+                        if t.len() < 54 {
+                            // font.head() fails: Glyf::subset returns SubsetTableError(head); glyf, loca, head all absent
+                            s.case("head", format!("c17.head 0 {}", hex(t)), if out.is_none() { "none".into() } else { resp.clone() });
+                        }
                     }
                 } else {
                     s.count("head:no-glyf");
@@ -693,6 +749,10 @@ fn run_request(s: &mut Session, cx: &Ctx, req: &Req, r: &mut Rng) {
                     Some(_) => s.count("hhea:hmtx-length-odd(skipped)"),
                     None => {
                         s.count("hhea:no-hmtx");
+                        if t.len() < 36 {
+                            // font.hhea() fails, so font.hmtx() fails: neither table is emitted
+                            s.case("hhea", format!("c17.hhea 0 {}", hex(t)), if out.is_none() { "none".into() } else { resp.clone() });
+                        }
                         // hhea is only ever emitted by Hmtx::subset
                         s.oracle("hhea-only-num-h-metrics-changed", out.is_none(), || input.clone(), || "hhea without hmtx".into());
                     }
@@ -757,8 +817,11 @@ fn run_request(s: &mut Session, cx: &Ctx, req: &Req, r: &mut Rng) {
             if let (Ok(ov), Some(sf), Some(_)) = (font.vmtx(), &subset, &out) {
                 let renumbered = n2o.iter().any(|(n, o)| n != o);
                 s.count(if renumbered { "vmtx:renumbered" } else { "vmtx:identity-map" });
+                // klippa passes vmtx through (no vmtx subsetter at this commit): with renumbered glyph ids the oracle is
+                // a known finding, keyed by the [renumbered] suffix; with an identity map it must hold
+                let vm_name = if renumbered { "vmtx-vertical-metrics-preserved[renumbered]" } else { "vmtx-vertical-metrics-preserved" };
                 match sf.vmtx() {
-                    Err(_) => s.oracle("vmtx-vertical-metrics-preserved", false, || input.clone(), || "subset vmtx unreadable".into()),
+                    Err(_) => s.oracle(vm_name, false, || input.clone(), || "subset vmtx unreadable".into()),
                     Ok(sv) => {
                         let mut bad = None;
                         for (new, old) in n2o {
@@ -768,7 +831,7 @@ fn run_request(s: &mut Session, cx: &Ctx, req: &Req, r: &mut Rng) {
                                 bad = Some(format!("(new {new}, old {old}): original {a:?} subset {b:?}"));
                             }
                         }
-                        cx.oracle_capped(s, "vmtx-vertical-metrics-preserved", bad.is_none(), &input, || bad.clone().unwrap_or_default());
+                        cx.oracle_capped(s, vm_name, bad.is_none(), &input, || bad.clone().unwrap_or_default());
                     }
                 }
             }
@@ -1013,6 +1076,11 @@ pub fn run(cfg: &Config, s: &mut Session, r: &mut Rng) {
                 (format!("syn:post#{id}"), build_post(r, &sp))
             }
         };
+        for (k, v) in post_features(&post, n) {
+            if v {
+                s.count(&format!("postgen:{k}"));
+            }
+        }
         tables.push((*b"post", post));
         tables.push((*b"maxp", match id % 11 { 5 => { let mut m = vec![0, 0, 0x50, 0]; pu16(&mut m, n as u32); m } _ => true_maxp(r, &base, n, if id % 6 == 1 { 3 } else { 0 }) }));
         if id % 3 == 0 {
@@ -1066,6 +1134,17 @@ pub fn run(cfg: &Config, s: &mut Session, r: &mut Rng) {
     }
     {
         giant_names(s, r);
+    }
+    for (tag, keep) in [(*b"head", 52usize), (*b"hhea", 34), (*b"head", 53), (*b"hhea", 35)] {
+        // head / hhea too short to be read: font.head() / font.hhea() fail
+        let sy = base_syn(r, "x", 7, false);
+        let base = build_font(&sy);
+        let f = FontRef::new(&base).unwrap();
+        let mut tb = table(&f, &tag).unwrap().to_vec();
+        tb.truncate(keep);
+        let data = with_tables(&base, vec![(tag, tb)]);
+        let label = format!("syn:post-short-{}-{keep}", String::from_utf8_lossy(&tag));
+        run_font(s, r, &label, &data, 3, false, false);
     }
     {
         // a font without glyf: head goes through Head::subset
